@@ -21,7 +21,7 @@ def addrOther (ss : List Stmt) (other : Value) : Outcome Nat :=
 /-- the arithmetic of `calculate_address_offset` on the label's address `a` and the constant `add` -/
 def addrCombine (op : Char) (a add : Nat) : Outcome Value :=
   let z : Option Int :=
-    if op == '+' then some ((a : Int) + add) else if op == '-' then some ((a : Int) - add)
+    if op == '+' then some ((a : Int) + add) else if op == '-' then some (((a : Int) - add) % 65536)
     else if op == '*' then some ((a : Int) * add) else (if add = 0 then none else some ((a / add : Nat) : Int))
   match z with
   | none => .diag
